@@ -35,7 +35,11 @@ func c03Apply(opt *vfPairOpt, e c03Edit, applied *bool) {
 	var sim *vfStream
 	opt.Prepare = func(s *vfStream, _, _ *Conn) { sim = s }
 	var stash []byte
+	seenCCS := false
 	opt.Edit[e.Dir] = func(idx int, rec []byte) [][]byte {
+		if rec[0] == 20 {
+			seenCCS = true
+		}
 		if stash != nil && e.Kind == "swap" && idx == e.Rec+1 {
 			s := stash
 			stash = nil
@@ -67,7 +71,7 @@ func c03Apply(opt *vfPairOpt, e c03Edit, applied *bool) {
 				*applied = true
 			}
 		case "reframe":
-			if rec[0] == 22 && len(rec) > 5+e.Off && e.Off > 0 {
+			if rec[0] == 22 && !seenCCS && len(rec) > 5+e.Off && e.Off > 0 { // cleartext handshake records only
 				k := e.Off
 				if k == 5 {
 					k = (len(rec) - 5) / 2
